@@ -1,0 +1,13 @@
+//go:build verif
+
+package engine
+
+// VerifTrace, when set by a verification harness, receives one event per engine-loop step at its
+// linearization point (in the loop goroutine): recvAdd, recvRemove, ackSend, install, hangup, stop.
+var VerifTrace func(ev string, id uint64, ok bool)
+
+func verifTrace(ev string, id uint64, ok bool) {
+	if VerifTrace != nil {
+		VerifTrace(ev, id, ok)
+	}
+}
